@@ -139,7 +139,17 @@ def event_from_json(sx, jv, st):
     for f in ("created_at", "kind"):
         item = j["get"](jv.term, z3.StringVal(f))
         st.assume(z3.Implies(z3.And(j["has"](jv.term, z3.StringVal(f)), j["kind"](item) == B.JINT), EVENT.get(ev.term, f) == j["int"](item)))
+    # the kind Event() computes from the payload (int(kind); default TEXT_NOTE) as a function of the payload
+    st.assume(EVENT.get(ev.term, "kind") == PAYLOAD_KIND(jv.term))
     return ev
+
+
+PAYLOAD_KIND = REG.ufun("payload_kind", [V.Json.sort()], z3.IntSort())
+
+
+@REG.model("payload_kind")
+def _payload_kind(sx, args, kwargs, st, node):
+    return [R(st, Val(V.Int, PAYLOAD_KIND(args[0].term)))]
 
 
 from pyvc import builtins as B  # noqa: E402
